@@ -31,7 +31,8 @@ def main():
         else:
             ids.append(a)
     claimed = [c["property_id"] for c in json.loads((VERIF / "MANIFEST.json").read_text())["checks"]]
-    dirs = sorted(d for d in (VERIF / "seeded").iterdir() if d.is_dir() and (not ids or any(d.name.startswith(i) for i in ids)))
+    dirs = sorted(d for d in (VERIF / "seeded").iterdir() if d.is_dir() and not d.name.startswith("_")
+                  and (not ids or any(d.name.startswith(i) for i in ids)))
     assert sh("git -C /repo status --porcelain").stdout.strip() == "", "repo not clean"
     results = {}
     for d in dirs:
@@ -48,7 +49,9 @@ def main():
                 lines = [l for l in c.stdout.splitlines() if l.startswith(("VIOLATION", "KNOWN-FINDING", "DRIFT", "MACHINERY"))]
                 viol = [l for l in lines if l.startswith("VIOLATION")]
                 drift = [l for l in lines if l.startswith("DRIFT")]
-                results[(d.name, p)] = c.returncode
+                import re as _re
+                m = _re.search(r'"clause": "([^"]+)"', viol[0]) if viol else None
+                results[(d.name, p)] = (c.returncode, m.group(1) if m else "")
                 print(f"{d.name} check {p}: exit {c.returncode} ({time.time() - t0:.0f}s) violations={len(viol)} drift={'yes' if drift else 'no'}")
                 for l in (viol[:2] + drift[:1] + [l for l in lines if l.startswith("MACHINERY")][:1]):
                     print("    " + l[:420])
@@ -57,6 +60,14 @@ def main():
         finally:
             sh("git -C /repo checkout -- .")
     assert sh("git -C /repo status --porcelain").stdout.strip() == "", "repo not clean after run"
+    if not ids and not props:
+        lines = ["# Seeded changes vs. the registered checks (last full run of harness/mutants.py, tier %s)" % tier, "",
+                 "| change | check | exit | first VIOLATION clause |", "|---|---|---|---|"]
+        for (name, p), (rc, clause) in sorted(results.items()):
+            lines.append(f"| {name} | {p} | {rc} | {clause} |")
+        caught = sum(1 for (n, p), (rc, c) in results.items() if rc == 1)
+        lines += ["", f"{caught} of {len(results)} (change, own check) pairs end with exit 1 and a VIOLATION line."]
+        (VERIF / "seeded" / "RESULTS.md").write_text("\n".join(lines) + "\n")
 
 
 main()
